@@ -279,4 +279,189 @@ theorem slowDigits_spec (radix step : Nat) (hstep : 1 ≤ step) (hfit : radix ^ 
         List.map_drop]
       exact ⟨rfl, rfl⟩
 
+/-- the two digit runs as one function -/
+def runs (radix step : Nat) (integer : List Nat) (fraction : Option (List Nat)) : DigitState :=
+  let s0 : DigitState := { mantissa := 0, step := step, overflowed := false, zero := true }
+  let s1 := parseDigitsLoop radix (skipZeros integer) s0
+  match fraction with
+  | some fr => parseDigitsLoop radix (if s1.mantissa = 0 then skipZeros fr else fr) s1
+  | none => s1
+
+theorem runs_spec (radix step : Nat) (hstep : 1 ≤ step) (hfit : radix ^ step ≤ 2 ^ 64) (hr : 2 ≤ radix)
+    (integer : List Nat) (fraction : Option (List Nat))
+    (hvalid : ∀ c ∈ integer ++ fraction.getD [], c < 256 ∧ digitVal c radix < radix) :
+    (runs radix step integer fraction).mantissa =
+      valOf radix 0 ((((integer ++ fraction.getD []).map fun c => digitVal c radix).dropWhile (· == 0)).take step) ∧
+    (runs radix step integer fraction).zero =
+      allZero ((((integer ++ fraction.getD []).map fun c => digitVal c radix).dropWhile (· == 0)).drop step) := by
+  cases fraction with
+  | none => exact slowDigits_spec radix step hstep hfit hr integer none hvalid
+  | some fr => exact slowDigits_spec radix step hstep hfit hr integer (some fr) hvalid
+
+theorem slowBinary_runs (F : FTy) (compact : Bool) (radix base step : Nat) (e : Int) (integer : List Nat)
+    (fraction : Option (List Nat))
+    (h : ∀ (bytes : List Nat) (s : DigitState), parseU64Digits compact radix bytes s = parseDigitsLoop radix bytes s) :
+    slowBinary F compact radix base step e integer fraction =
+      slowTail F base e (runs radix step integer fraction).mantissa (runs radix step integer fraction).zero := by
+  cases fraction <;> simp only [slowBinary, runs, h] <;> rfl
+
+theorem valOf_ge_head (radix d : Nat) (ds : List Nat) : d * radix ^ ds.length ≤ valOf radix 0 (d :: ds) := by
+  rw [valOf_cons, valOf_split, Nat.zero_mul, Nat.zero_add]; exact Nat.le_add_right _ _
+
+/-- what an undecided `binary` says about its mantissa -/
+theorem undecided_facts {F p eb} (lay : LexVerif.Proof.ExtRound.Layout F p eb) {base : Nat}
+    (hb : base = 2 ∨ base = 4 ∨ base = 8 ∨ base = 16 ∨ base = 32) (M : Nat) (e : Int)
+    (hM : M < 2 ^ 64) (he1 : -(2 ^ 27 : Int) ≤ e) (he2 : e ≤ (2 ^ 27 : Int))
+    {fp : ExtendedFloat80} (h : binary F base ⟨M, e, false, true⟩ false = .ok fp) (hv : fp.exp < 0) :
+    M ≠ 0 ∧ -(calculatePower2 F base e (clz64 M)) + 1 ≤ 64 ∧
+    HalfwayEven (M * 2 ^ clz64 M) (LexVerif.Proof.ExtRound.shiftOf p (calculatePower2 F base e (clz64 M))) := by
+  open LexVerif.Proof.BinaryCorrect LexVerif.Proof.ExtRound in
+  rw [binary_eq] at h
+  by_cases h0 : M = 0
+  · rw [if_pos h0] at h; injection h with h; subst h; simp at hv
+  · rw [if_neg h0] at h
+    obtain ⟨hc, hm1, hm2, hshl⟩ := clz_norm h0 hM
+    simp only [hshl] at h
+    generalize hP : calculatePower2 F base e (clz64 M) = power2 at *
+    by_cases hz : -power2 + 1 > 64
+    · rw [if_pos hz] at h; injection h with h; subst h; simp at hv
+    · rw [if_neg hz] at h
+      have hp2 : -power2 + 1 ≤ 64 := by omega
+      rw [calculateShift_eq lay power2] at h
+      obtain ⟨_, _, hs0, hs64, _⟩ := quot_bounds lay.hp (by have := lay.hp64; have := lay.heb; omega)
+        hm1 hm2 power2 hp2
+      by_cases hu : binUndecided (M * 2 ^ clz64 M) (shiftOf p power2) false true = true
+      · refine ⟨h0, hp2, ?_⟩
+        generalize hs : shiftOf p power2 = s at *
+        have hh := lowerNHalfway_eq hs0 hs64
+        have htb : (if s = 64 then M * 2 ^ clz64 M else M * 2 ^ clz64 M % 2 ^ (s % 64)) =
+            M * 2 ^ clz64 M % 2 ^ s := by
+          split
+          · subst_vars; rw [Nat.mod_eq_of_lt hm2]
+          · rw [Nat.mod_eq_of_lt (show s < 64 by omega)]
+        have hev : (if s = 64 then true else decide (M * 2 ^ clz64 M / 2 ^ (s % 64) % 2 = 0)) =
+            decide (M * 2 ^ clz64 M / 2 ^ s % 2 = 0) := by
+          split
+          · subst_vars; rw [Nat.div_eq_of_lt hm2]; rfl
+          · rw [Nat.mod_eq_of_lt (show s < 64 by omega)]
+        unfold binUndecided at hu
+        simp only [htb, hev, hh, Bool.not_false, Bool.true_and, Bool.and_eq_true, decide_eq_true_eq,
+          Bool.and_true] at hu
+        exact ⟨hu.2, hu.1⟩
+      · rw [if_neg hu] at h
+        injection h with h; subst h
+        have := (round_bits lay (M * 2 ^ clz64 M) power2
+          (fun _ _ _ => binRoundUp (M * 2 ^ clz64 M) (shiftOf p power2)) hm1 hm2 hp2).1
+        omega
+
+/-- **`slowBinary_correct`, proved for the single-digit loop** (`compact` builds, or radix 16 / 32; the
+8-digit fast loop of radix 2 / 4 / 8 in non-`compact` builds is not covered): see `Props/C05.lean`. -/
+theorem slowBinary_digits_correct {F p eb} (lay : LexVerif.Proof.ExtRound.Layout F p eb) (hp54 : p ≤ 54)
+    (compact : Bool) (radix : Nat) (hsingle : compact = true ∨ 10 < radix)
+    (hradix : radix = 2 ∨ radix = 4 ∨ radix = 8 ∨ radix = 16 ∨ radix = 32) {base : Nat}
+    (hb : base = 2 ∨ base = 4 ∨ base = 8 ∨ base = 16 ∨ base = 32) (step : Nat)
+    (hfit : radix ^ step ≤ 2 ^ 64) (hmax : 2 ^ 64 < radix ^ (step + 1)) (e : Int)
+    (he1 : -(2 ^ 27 : Int) ≤ e) (he2 : e ≤ (2 ^ 27 : Int)) (integer : List Nat) (fraction : Option (List Nat))
+    (hvalid : ∀ c ∈ integer ++ fraction.getD [], c < 256 ∧ digitVal c radix < radix) :
+    let sig := ((integer ++ fraction.getD []).map fun c => digitVal c radix).dropWhile (· == 0)
+    let first := valOf radix 0 (sig.take step)
+    (∃ fp, binary F base ⟨first, e, false, true⟩ false = .ok fp ∧ fp.exp < 0) →
+    extendedToFloat F (slowBinary F compact radix base step e integer fraction) =
+      roundNE F.fmt (LexVerif.Proof.RoundNE.powFrac base e (valOf radix 0 sig)).1
+        ((LexVerif.Proof.RoundNE.powFrac base e (valOf radix 0 sig)).2 * radix ^ (sig.length - step)) := by
+  open LexVerif.Proof.BinaryCorrect LexVerif.Proof.ExtRound LexVerif.Proof.RoundNE in
+  intro sig first hund
+  have hr2 : 2 ≤ radix := by rcases hradix with h | h | h | h | h <;> omega
+  have hr32 : radix ≤ 32 := by rcases hradix with h | h | h | h | h <;> omega
+  have hstep1 : 1 ≤ step := by
+    apply Classical.byContradiction; intro hc
+    have : step = 0 := by omega
+    subst this
+    rw [Nat.zero_add, Nat.pow_one] at hmax
+    have : (32 : Nat) < 2 ^ 64 := by decide
+    omega
+  -- the digit loops
+  have hloop : ∀ (bytes : List Nat) (s : DigitState),
+      parseU64Digits compact radix bytes s = parseDigitsLoop radix bytes s := by
+    intro bytes s
+    unfold parseU64Digits
+    have : (!compact && decide (radix ≤ 10)) = false := by
+      rcases hsingle with h | h
+      · rw [h]; rfl
+      · have : ¬ radix ≤ 10 := by omega
+        simp [this]
+    rw [this]; rfl
+  rw [slowBinary_runs F compact radix base step e integer fraction hloop]
+  obtain ⟨hmant, hzero⟩ := runs_spec radix step hstep1 hfit hr2 integer fraction hvalid
+  rw [hmant, hzero]
+  -- digits of sig
+  have hsiglt : ∀ d ∈ sig, d < radix := by
+    intro d hd
+    have : d ∈ (integer ++ fraction.getD []).map fun c => digitVal c radix :=
+      (List.dropWhile_sublist _).subset hd
+    obtain ⟨c, hc, rfl⟩ := List.mem_map.mp this
+    exact (hvalid c hc).2
+  -- value split
+  have hsplit : valOf radix 0 sig = first * radix ^ (sig.length - step) + valOf radix 0 (sig.drop step) := by
+    conv => lhs; rw [← List.take_append_drop step sig]
+    rw [valOf_append, valOf_split, List.length_drop]
+  have hrlt : valOf radix 0 (sig.drop step) < radix ^ (sig.length - step) := by
+    have := valOf_lt radix (sig.drop step) (fun d hd => hsiglt d ((List.drop_sublist _ _).subset hd)) 0 0
+      (by simp)
+    rwa [Nat.zero_add, List.length_drop] at this
+  obtain ⟨fp, hfp, hneg⟩ := hund
+  have hfirst_lt : first < 2 ^ 64 := by
+    have := valOf_lt radix (sig.take step) (fun d hd => hsiglt d ((List.take_sublist _ _).subset hd)) 0 0
+      (by simp)
+    rw [Nat.zero_add] at this
+    have h2 : radix ^ (sig.take step).length ≤ radix ^ step :=
+      Nat.pow_le_pow_right (by omega) (by rw [List.length_take]; omega)
+    omega
+  obtain ⟨hM0, hp2, hhe⟩ := undecided_facts lay hb first e hfirst_lt he1 he2 hfp hneg
+  rw [hsplit]
+  apply slowBinary_core lay hb e he1 he2 first _ _ _ hM0 hfirst_lt hrlt
+    ((valOf_zero_iff radix (by omega) _).symm.trans (by rfl)) hp2 _ hhe
+  -- the truncated digits are worth less than the bits shifted out
+  intro hr0
+  have hlen : step < sig.length := by
+    apply Classical.byContradiction; intro hc
+    have : sig.drop step = [] := List.drop_eq_nil_of_le (by omega)
+    rw [this] at hr0; exact hr0 rfl
+  -- first ≥ radix^(step-1) > 2^54
+  have hfirst_ge : radix ^ (step - 1) ≤ first := by
+    cases hsig : sig with
+    | nil => rw [hsig] at hlen; simp at hlen
+    | cons d ds =>
+      have hd0 : d ≠ 0 := dropWhile_head_ne _ d ds hsig
+      obtain ⟨j, hj⟩ : ∃ j, step = j + 1 := ⟨step - 1, by omega⟩
+      show radix ^ (step - 1) ≤ valOf radix 0 (sig.take step)
+      rw [hsig, hj, List.take_succ_cons]
+      have h1 := valOf_ge_head radix d (ds.take j)
+      have h2 : (ds.take j).length = j := by
+        rw [List.length_take]; rw [hsig, List.length_cons] at hlen; omega
+      rw [h2] at h1
+      have : 1 * radix ^ j ≤ d * radix ^ j := Nat.mul_le_mul_right _ (by omega)
+      rw [Nat.add_sub_cancel]; omega
+  have h54 : 2 ^ 54 < first := by
+    have h1 : radix ^ (step + 1) = radix ^ (step - 1) * (radix * radix) := by
+      rw [show step + 1 = (step - 1) + 1 + 1 by omega, Nat.pow_succ, Nat.pow_succ]; ac_rfl
+    have h2 : radix * radix ≤ 32 * 32 := Nat.mul_le_mul hr32 hr32
+    have h3 : radix ^ (step - 1) * (radix * radix) ≤ radix ^ (step - 1) * (32 * 32) :=
+      Nat.mul_le_mul_left _ h2
+    have h4 : (2 : Nat) ^ 64 = 2 ^ 54 * (32 * 32) := by decide
+    rw [h1] at hmax
+    have : 2 ^ 54 * (32 * 32) < radix ^ (step - 1) * (32 * 32) := by omega
+    have := Nat.lt_of_mul_lt_mul_right this
+    omega
+  have hbl : 55 ≤ bitlen first := by
+    apply Classical.byContradiction; intro hc
+    have h1 := LexVerif.Proof.RoundNE.bitlen_upper first
+    have h2 : 2 ^ bitlen first ≤ 2 ^ 54 := Nat.pow_le_pow_right (by decide) (by omega)
+    omega
+  have hclz : clz64 first ≤ 9 := by
+    unfold clz64; rw [Nat.mod_eq_of_lt hfirst_lt]; omega
+  have hsh : 64 - p ≤ shiftOf p (calculatePower2 F base e (clz64 first)) := by
+    unfold shiftOf; split <;> omega
+  omega
+
 end LexVerif.Proof.SlowBinary
